@@ -20,7 +20,7 @@ from sa.schemas import pptx as s_pptx
 EXPLANATION = (
     "That every visible piece of a document appears once, in order and separated is a relation between content and output and "
     "is not decided as a whole. Four structural clauses are. (WALK) Each ElementTree walker that feeds the main text (docx body, "
-    "odt body, odp slide, odg drawing, ods cell, DrawingML text body) is abstracted to its traversal skeleton - axis steps "
+    "odt body, odp slide, odg drawing, ods cell, DrawingML text body, pptx slide shape tree) is abstracted to its traversal skeleton - axis steps "
     "(.iter / .findall / .find / child loops / project generator helpers), tag dispatch, recursion, reads of .text/.tail - and "
     "the product of this skeleton with the format's tree grammar (written down from ECMA-376 / ODF 1.2) is explored with visit "
     "counts saturating at 2: for every document the grammar generates, at any nesting depth, each visible character-data "
@@ -39,7 +39,7 @@ EXPLANATION = (
 NOT_DECIDED = [
     "relative order of the pieces and whitespace separation (value level)",
     "HTML / EPUB / MHTML walkers (dict tree and HTMLParser handlers; removal is C17)",
-    "PPTX shape classification by placeholder type (attribute values) - only the DrawingML text body walk is decided",
+    "PPTX shape classification by placeholder type (attribute values: which bucket a text box lands in)",
     "legacy binary formats (doc, ppt, xls), PDF, plain text, e-mail bodies",
     "that .text of a mixed-content node and the tails of its children are concatenated in document order",
     "foot/endnote bodies (neither demanded nor forbidden by the property)",
@@ -50,7 +50,7 @@ TRUSTED = [
     "value conditions inside walkers are taken as 'leaf present and non-empty'; flags at their defaults",
     "int() of a \\d+ group is taken as total (the 4300-digit limit of CPython is outside the document model)",
 ]
-FLOORS = {"C02-WALK": 150, "C02-EXCL": 30, "C02-SINK": 6, "C02-FALLBACK": 20, "C02-ONCE": 100}
+FLOORS = {"C02-WALK": 150, "C02-EXCL": 30, "C02-SINK": 6, "C02-FALLBACK": 20, "C02-ONCE": 100, "C02-TRIM": 8}
 
 # ------------------------------------------------------------------------------------------------ WALK
 
@@ -62,7 +62,9 @@ WALKS = [
     ("odg", X + "open_office/odg_extractor.py", "_extract_full_text", "drawing_root", s_odf.odg_drawing, frozenset(), "read_odg"),
     ("ods", X + "open_office/ods_extractor.py", "_extract_cell_value", "cell", s_odf.ods_cell, frozenset(), "read_ods"),
     ("pptx", X + "ms_modern/pptx_extractor.py", "_extract_text_from_paragraphs", "elem", s_pptx.txbody, frozenset(), "read_pptx"),
+    ("pptx-slide", X + "ms_modern/pptx_extractor.py", "_process_slide_from_context", "root", s_pptx.slide, frozenset({"formulas", "images", "comments"}), "read_pptx"),
 ]
+LOCAL_ROOT = {"pptx-slide"}  # the node is a local of the entry function (root = ctx.get_slide_root(..)), not a parameter
 OPAQUE = {"omml_to_latex"}  # consumes the whole subtree of its argument (decided separately: C19)
 
 
@@ -99,6 +101,9 @@ def run_walk(ctx: Ctx, rep: RuleReport, rule: str, label, rel, entry, param, sch
     pr = Product(ex, schema_fn(), marks_expected=marks or {}, skip_sinks=skip, region=region)
     devs, stats = pr.run(fi, param)
     rep.unit(fi.key)
+    for (ffi, var, test) in ex.filters:
+        rep.fail(Finding(rule, ffi.module.rel, ffi.qual, f"cell skipped when {short(test, 80)}",
+                         f"the loop that enumerates the cells of a row leaves out a cell depending on its content or attributes ({short(test, 60)}): the row comes back shorter than in the source and the following cells shift", line=test.lineno))
     mins = minimal_deviations(devs)
     bad_leafs = len({(tuple(k.name for k in d.path), d.what) for d in devs})
     for _ in range(max(0, stats["leaf_checks"] - bad_leafs)):
@@ -120,7 +125,7 @@ def run_walk(ctx: Ctx, rep: RuleReport, rule: str, label, rel, entry, param, sch
 def rule_walk(ctx: Ctx) -> RuleReport:
     rep = RuleReport("C02-WALK", "every visible character-data position of the format grammar is read exactly once, every excluded one never")
     for (label, rel, entry, param, schema_fn, skip, caller) in WALKS:
-        run_walk(ctx, rep, "C02-WALK", label, rel, entry, param, schema_fn, skip, caller)
+        run_walk(ctx, rep, "C02-WALK", label, rel, entry, param, schema_fn, skip, caller, local_root=label in LOCAL_ROOT)
     return rep
 
 
@@ -335,6 +340,8 @@ def rule_sink(ctx: Ctx) -> RuleReport:
     # the functions that build the main text: everything the WALK entries traverse, plus the PPTX slide assembler
     scope: dict[str, tuple[FuncInfo, frozenset]] = {}
     for (label, rel, entry, param, schema_fn, skip, caller) in WALKS:
+        if label in LOCAL_ROOT:
+            continue  # the slide assembler is in EXTRA_SINK_FUNCS
         ex2 = Extractor(ctx, opaque_subtree=OPAQUE)
         fi = ctx.p.func(rel, entry)
         Product(ex2, schema_fn(), skip_sinks=skip).run(fi, param)
@@ -738,4 +745,16 @@ def rule_once(ctx: Ctx) -> RuleReport:
     return rep
 
 
-RULES = [rule_walk, rule_excl, rule_sink, rule_fallback, rule_once]
+def rule_trim(ctx: Ctx) -> RuleReport:
+    """Sheet text is built from the trimmed grid: cells classified as empty are missing from the text as well (= C13-TRIM)."""
+    from sa.rules.c13 import rule_trim as r13
+
+    rep = r13(ctx)
+    rep.rule = "C02-TRIM"
+    rep.description = "worksheet trimming treats only None and blank strings as empty, so no cell value (0, 0.0, False) is missing from the sheet text"
+    for f in rep.findings:
+        f.rule = "C02-TRIM"
+    return rep
+
+
+RULES = [rule_walk, rule_excl, rule_sink, rule_fallback, rule_once, rule_trim]
